@@ -25,7 +25,7 @@ type writeSite struct {
 }
 
 type effectsInfo struct {
-	Writes        []writeSite                       // every write with its root
+	Writes        []writeSite                        // every write with its root
 	ParamWritten  map[*ssa.Parameter]ssa.Instruction // parameters written through (witness)
 	FreeVarWrites map[*ssa.FreeVar]ssa.Instruction
 }
